@@ -108,7 +108,12 @@ class Sim:
         self.ghost = {}
         self.mtime = {}  # artefact base name -> virtual time of its last modification
         self.rng_tie = core.rng_for(scn["seed"], "tie")
-        self.cache = core.scratch_dir("jitcache-")
+        self.cache_root = core.scratch_dir("jitcache-")
+        self.cache = self.cache_root
+        if scn.get("fresh_cache_dir") and not scn.get("pre"):
+            # first run / cleaned cache: the directory (two levels of it) does not exist yet, the
+            # processes create it themselves - creating it is a seam like any other
+            self.cache = os.path.join(self.cache_root, "fresh", "cache")
         self.tmp = core.scratch_dir("jittmp-")
         self.fault_free = not [f for f in self.faults if f["kind"] != "stall"] and not any(
             p["kind"] not in ("warm", "stale-failed", "warm+stale-failed", "stale-failed+complete-so")
@@ -551,6 +556,8 @@ class Sim:
         if p.fixed_cache_arg:
             return p.fixed_cache_arg
         sp = (self.scn.get("cache_spelling") or {}).get(str(p.name))
+        if self.cache != self.cache_root:
+            sp = None  # a link to a directory that does not exist yet is a user error, not a schedule
         if sp == "symlink":
             link = os.path.join(self.tmp, f"cachelink-{p.idx}")
             if not os.path.islink(link):
@@ -691,7 +698,7 @@ class Sim:
         afterwards, or a relative path followed by a chdir).  Whatever the process remembers about
         'its' cache directory must not survive the change of meaning."""
         how = (self.scn.get("decoy_first") or {}).get(str(p.name))
-        if not how or p.decoy_done:
+        if not how or p.decoy_done or self.cache != self.cache_root:
             return
         p.decoy_done = True
         decoy_root = os.path.join(self.tmp, f"decoy-{p.idx}")
@@ -938,7 +945,7 @@ class Sim:
                     except Exception:
                         pass
             if not self.keep_cache:
-                shutil.rmtree(self.cache, ignore_errors=True)
+                shutil.rmtree(self.cache_root, ignore_errors=True)
             shutil.rmtree(self.tmp, ignore_errors=True)
         unfired = [f["kind"] for f in self.faults if not f["fired"]]
         return {
